@@ -53,6 +53,7 @@ type Faults struct {
 	WriterOnce     bool `json:"writerOnce,omitempty"`  // only that one write fails (default: sticky)
 	CallbackFailAt int  `json:"callbackFailAt"`
 	BreakAt        int  `json:"breakAt"`
+	ReaderBlock    int  `json:"readerBlock,omitempty"` // k>0: after k-1 bytes the reader delivers nothing more and its Read blocks (an idle pipe) until the call under test has returned
 	CbErrKind      int  `json:"cbErrKind,omitempty"` // which value the failing callback returns (see CallbackErr)
 	IOKind         int  `json:"ioKind,omitempty"`    // 1: the reader also implements io.WriterTo and the writer io.StringWriter (code may take other paths for them); 2: the reader is also an io.Closer; 3: a *bytes.Reader; 4: an open regular file; 5: a *bufio.Reader around the fault-injecting reader; 7: a *bytes.Buffer; 6: an empty regular file opened write-only (Read fails with EBADF); 8/9: a *bytes.Reader / regular file positioned behind an earlier (hostile) section the caller has already consumed
 	ErrKind        int  `json:"errKind,omitempty"`   // which well-known error the injected reader/writer error additionally wraps (see FaultErr)
@@ -141,6 +142,7 @@ type Result struct {
 	ReadBytes       int            `json:"readBytes,omitempty"`
 	LateReadBytes   int            `json:"lateReadBytes,omitempty"`   // bytes the reader was asked for after the call had returned
 	CloseDuringRead bool           `json:"closeDuringRead,omitempty"` // the reader's Close was called while one of its Reads was pending
+	ReaderParked bool `json:"readerParked,omitempty"` // a Read was parked on the idle reader (Faults.ReaderBlock)
 	Visits          []Visit        `json:"visits,omitempty"`
 	VisitsAfter     int            `json:"visitsAfter,omitempty"`  // callbacks after the stop position
 	SecondVisits    int            `json:"secondVisits,omitempty"` // visits of the second range over the same iterator value (RangeTwice)
